@@ -13,6 +13,8 @@ from PIL import Image
 from vlib import treg
 from vlib.core import Case, Facet, Refused, Violation
 
+# thorough-tier budgets of every facet are multiplied by this factor (sized for ~5-8 min on 16 cores)
+THOROUGH_SCALE = 4
 LEVEL = "exploration"
 RULE = ("spec = scalable transform spec (colour jitter, both blurs, solarize int/float, random grayscale, rotation, additive "
         "gaussian/uniform noise, threshold - each also in its random-apply form - rand-augment, rand-augment-custom, "
